@@ -421,3 +421,66 @@ Proof.
   - destruct (crop_p t a b r) as [x|] eqn:E; [|discriminate]. injection Ht as <-.
     apply (crop_p_span t a b r x E).
 Qed.
+
+(* ------------------------------------------------------------------ *)
+(* Textgrid.eraseRegion / insertSpace act tier-wise                     *)
+
+Lemma new_ptier_name' name l mn mx t : new_ptier name l mn mx = Ok t -> pname t = name.
+Proof.
+  unfold new_ptier. destruct (zmin_list _); [|discriminate]. destruct (zmax_list _); [|discriminate].
+  now intros [= <-].
+Qed.
+
+Lemma erase_tier_name t a b s t' : erase_tier t a b s = Ok t' -> tname t' = tname t.
+Proof.
+  destruct t as [t|t]; simpl.
+  - destruct (erase_i t a b ETruncate s) as [x|] eqn:E; [|discriminate]. intros [= <-]. simpl.
+    unfold erase_i in E. destruct (b <=? a); [discriminate|].
+    destruct (copy_itier t) as [t0|]; [|discriminate]. cbn [bind] in E.
+    destruct (erase_keep a b ETruncate (ients t0)) as [l1|]; [|discriminate]. cbn [bind] in E.
+    destruct s; eapply new_itier_name, E.
+  - destruct (erase_p t a b s) as [x|] eqn:E; [|discriminate]. intros [= <-]. simpl.
+    unfold erase_p in E. destruct (copy_ptier t) as [t0|]; [|discriminate]. cbn [bind] in E.
+    destruct (b <=? a); [discriminate|]. destruct s; [eapply new_ptier_name', E|]. now injection E as <-.
+Qed.
+
+Lemma space_tier_name t s d m t' : space_tier t s d m = Ok t' -> tname t' = tname t.
+Proof.
+  destruct t as [t|t]; simpl.
+  - destruct (space_i t s d m) as [x|] eqn:E; [|discriminate]. intros [= <-]. simpl.
+    unfold space_i in E. destruct (_ && _); [discriminate|]. eapply new_itier_name, E.
+  - destruct (space_p t s d) as [x|] eqn:E; [|discriminate]. intros [= <-]. simpl.
+    eapply new_ptier_name', E.
+Qed.
+
+(* Textgrid.eraseRegion: same names in the same order, every tier is that tier's own
+   eraseRegion(truncate), and the textgrid's own span shrinks by exactly the region's length *)
+Theorem tg_erase_tierwise g a b s g' :
+  NoDup (names g) -> tg_erase g a b s = Ok g' ->
+  names g' = names g
+  /\ Forall2 (fun t t' => erase_tier t a b s = Ok t') (tiers g) (tiers g')
+  /\ tgmax g' = (if s then match tgmax g with Some m => Some (m - (b - a)) | None => None end else tgmax g).
+Proof.
+  intros Hn. unfold tg_erase. destruct (b <=? a); [discriminate|].
+  destruct (mapM _ (tiers g)) as [l|] eqn:Em; [|discriminate]. cbn [bind].
+  pose proof (mapM_names _ tname _ _ (fun x y => erase_tier_name x a b s y) Em) as Hnames.
+  destruct (add_all_ok l (mkTG [] (tgmin g) (tgmax g)) RWarning) as (g2 & E & T).
+  - discriminate.
+  - unfold names. simpl. rewrite Hnames. exact Hn.
+  - rewrite E. cbn [bind]. intros [= <-]. unfold names. simpl. rewrite T. simpl.
+    split; [exact Hnames|]. split; [apply mapM_Forall2, Em|reflexivity].
+Qed.
+
+(* Textgrid.insertSpace *)
+Theorem tg_space_tierwise g s d m g' :
+  NoDup (names g) -> tg_space g s d m = Ok g' ->
+  names g' = names g /\ Forall2 (fun t t' => space_tier t s d m = Ok t') (tiers g) (tiers g').
+Proof.
+  intros Hn. unfold tg_space.
+  destruct (mapM _ (tiers g)) as [l|] eqn:Em; [|discriminate]. cbn [bind].
+  pose proof (mapM_names _ tname _ _ (fun x y => space_tier_name x s d m y) Em) as Hnames.
+  destruct (add_all_ok l (mkTG [] (tgmin g) (match tgmax g with Some x => Some (x + d) | None => None end)) RWarning) as (g2 & E & T).
+  - discriminate.
+  - unfold names. simpl. rewrite Hnames. exact Hn.
+  - rewrite E. intros [= <-]. unfold names. rewrite T. simpl. split; [exact Hnames|]. apply mapM_Forall2, Em.
+Qed.
